@@ -448,7 +448,8 @@ func (p *Plan) castAlts(from, to types.Type) (convs []string, noMatchOK bool) {
 }
 
 func sliceElem(t types.Type) types.Type {
-	if s, ok := t.(*types.Slice); ok {
+	// named slice types are slices too (C16 speaks of slice fields, not of unnamed slice types)
+	if s, ok := t.Underlying().(*types.Slice); ok {
 		return s.Elem()
 	}
 	return nil
@@ -523,7 +524,20 @@ func (p *Plan) explicitAlts(n Notation, to types.Type) (alts []Alt, loose bool, 
 		if src == nil {
 			return []Alt{{Kind: "nomatch"}}, false, "unresolvable source"
 		}
-		return p.valueAlts(src, to), false, ""
+		alts = p.valueAlts(src, to)
+		// C16 demands fresh storage for slices copied by name match only; for an explicit :map a plain
+		// assignment of the slice value is the value "denoted by that source path" just as well
+		var more []Alt
+		for _, a := range alts {
+			if a.Slice != "" {
+				if types.AssignableTo(src.Type, to) {
+					more = append(more, Alt{Kind: "assign", Src: src, SrcDesc: a.SrcDesc})
+				} else {
+					more = append(more, Alt{Kind: "nomatch"})
+				}
+			}
+		}
+		return append(alts, more...), false, ""
 	case "conv":
 		sg := p.Conv[n.Args[0]]
 		if sg == nil || sg.Params().Len() != 1 || sg.Results().Len() < 1 || sg.Results().Len() > 2 {
